@@ -7,7 +7,6 @@ from concurrent.futures import ThreadPoolExecutor
 ROOT = os.path.dirname(os.path.dirname(os.path.abspath(__file__)))
 REPO = os.environ.get("VERIF_REPO", "/repo")
 CACHE = os.path.join(ROOT, ".cache")
-TARGET = os.path.join(CACHE, "target")
 COQ = os.path.join(ROOT, "coq")
 OUT = os.path.join(ROOT, "out")
 EVID = os.path.join(ROOT, "evidence")
@@ -21,6 +20,11 @@ FORBIDDEN = re.compile(
 
 # axioms of the standard library that a theorem may depend on; anything else fails the audit
 ALLOWED_AXIOMS = set()
+
+
+TB = ("Trusted: Coq 8.16.1 kernel and vm_compute (no native_compute); no axioms (Print Assumptions: closed under "
+      "the global context); the hand-written Gallina model is tied to /repo by a differential correspondence check on "
+      "every run (generator-bounded); Rust harness and tools/lib.py (canonicalisation, diffing). ")
 
 
 class Fail(Exception):
@@ -59,32 +63,58 @@ class Lock:
 
 # ---------------------------------------------------------------- Rust harness
 
-def build_harness(profile="debug"):
-    """(Re)build the harness against /repo's current working tree (cargo is incremental over the
-    path dependencies, so an edited source file is always recompiled)."""
-    hdir = os.path.join(ROOT, "harness")
-    with Lock("cargo"):
+def _repo_tag():
+    return "default" if REPO == "/repo" else hashlib.sha1(REPO.encode()).hexdigest()[:10]
+
+
+def harness_dir():
+    """A build directory for the harness crate whose path dependencies point at REPO (default /repo;
+    VERIF_REPO=<worktree> runs every check against another copy of the repository)."""
+    d = os.path.join(CACHE, "harness-" + _repo_tag())
+    os.makedirs(os.path.join(d, ".cargo"), exist_ok=True)
+    tmpl = open(os.path.join(ROOT, "harness", "Cargo.toml.in")).read().replace("@REPO@", REPO)
+    ct = os.path.join(d, "Cargo.toml")
+    if not os.path.exists(ct) or open(ct).read() != tmpl:
+        open(ct, "w").write(tmpl)
+    cfg = '[net]\noffline = true\n[env]\nVERIF_REPO = "%s"\n' % REPO
+    cf = os.path.join(d, ".cargo", "config.toml")
+    if not os.path.exists(cf) or open(cf).read() != cfg:
+        open(cf, "w").write(cfg)
+    src = os.path.join(d, "src")
+    if not os.path.islink(src):
+        os.symlink(os.path.join(ROOT, "harness", "src"), src)
+    return d
+
+
+def build_harness(bin, profile="debug"):
+    """(Re)build harness binary `bin` against REPO's current working tree (cargo is incremental over
+    the path dependencies, so an edited source file is always recompiled)."""
+    with Lock("cargo-" + _repo_tag()):
+        hdir = harness_dir()
+        target = os.path.join(CACHE, "target-" + _repo_tag())
         lock = os.path.join(hdir, "Cargo.lock")
         src = os.path.join(REPO, "Cargo.lock")
         if not os.path.exists(lock):
             shutil.copy(src, lock)
-        env = {"CARGO_TARGET_DIR": TARGET, "CARGO_NET_OFFLINE": "true",
+        env = {"CARGO_TARGET_DIR": target, "CARGO_NET_OFFLINE": "true", "VERIF_REPO": REPO,
                "RUSTFLAGS": "--cfg %s -Awarnings" % GUARD_CFG}
-        cmd = ["cargo", "build", "--offline", "-q"] + (["--release"] if profile == "release" else [])
+        cmd = ["cargo", "build", "--offline", "-q", "--bin", bin] + (["--release"] if profile == "release" else [])
         t = time.time()
         rc, out = sh(cmd, cwd=hdir, env=env, timeout=3000)
         if rc != 0 and "Cargo.lock" in out:
             shutil.copy(src, lock)
             rc, out = sh(cmd, cwd=hdir, env=env, timeout=3000)
         if rc != 0:
-            raise Fail("harness build failed against the current /repo tree:\n" + out[-6000:])
-        log("[harness %s built in %.1fs]" % (profile, time.time() - t))
-    return os.path.join(TARGET, profile, "vharness")
+            raise Fail("harness build failed against the current %s tree:\n%s" % (REPO, out[-6000:]))
+        log("[harness %s (%s) built in %.1fs]" % (bin, profile, time.time() - t))
+    return os.path.join(target, profile, bin)
 
 
-def run_harness(domain, seed, n, tier="quick", extra=(), profile="debug", timeout=1800):
-    exe = build_harness(profile)
-    cmd = [exe, domain, "--seed", str(seed), "--n", str(n), "--tier", tier] + list(extra)
+def run_harness(bin, sub, seed, n, tier="quick", extra=(), profile="debug", timeout=1800):
+    """Build harness binary `bin` against the current /repo tree and run its sub-domain `sub`;
+    returns {kind: [json records]} from the @@KIND lines it prints."""
+    exe = build_harness(bin, profile)
+    cmd = [exe, sub, "--seed", str(seed), "--n", str(n), "--tier", tier] + list(extra)
     p = subprocess.run(cmd, stdout=subprocess.PIPE, stderr=subprocess.PIPE, text=True,
                        errors="replace", timeout=timeout,
                        env=dict(os.environ, RUST_BACKTRACE="1", RUST_LOG="off"))
@@ -94,7 +124,7 @@ def run_harness(domain, seed, n, tier="quick", extra=(), profile="debug", timeou
             kind, _, js = line[2:].partition(" ")
             recs.setdefault(kind, []).append(json.loads(js))
     if p.returncode != 0:
-        raise Fail("harness %s exited with %d:\n%s" % (domain, p.returncode, p.stderr[-4000:]))
+        raise Fail("harness %s %s exited with %d:\n%s" % (bin, sub, p.returncode, p.stderr[-4000:]))
     return recs
 
 
